@@ -19,9 +19,9 @@ CONFIGS = {
     # (MIN, SIZE, J, with_close, K)
     # the last flag: a quiescent state with every job served must be reachable within K (vacuity guard for the
     # at-quiescence assertions); configurations without it still catch lost wake-ups, which quiesce early
-    "quick": [(1, 1, 1, False, 32, True), (1, 1, 2, False, 44, False), (1, 2, 2, False, 38, False), (2, 2, 2, False, 36, False),
+    "quick": [(1, 1, 1, False, 32, True), (1, 1, 2, False, 44, True), (1, 2, 2, False, 50, True),
               (1, 1, 1, True, 50, True), (1, 2, 1, True, 50, True)],
-    "thorough": [(1, 1, 1, False, 36, True), (1, 1, 2, False, 56, True), (1, 2, 2, False, 56, True), (2, 2, 2, False, 48, False),
+    "thorough": [(1, 1, 1, False, 36, True), (1, 1, 2, False, 56, True), (1, 2, 2, False, 56, True), (2, 2, 2, False, 52, True),
                  (1, 3, 3, False, 48, False), (2, 3, 3, False, 44, False), (1, 2, 3, False, 48, False),
                  (1, 1, 1, True, 54, True), (1, 2, 2, True, 58, False), (2, 2, 2, True, 52, False)],
 }
